@@ -30,6 +30,12 @@ def log(msg: str) -> None:
 # ---------------------------------------------------------------------------------------------
 
 
+def render_inv(inv: Dict[str, Any]) -> str:
+    """The invariant decorator, with the description as an ASCII literal that Python reads back exactly
+    (mm.pylit writes astral characters as two surrogate escapes, which is a different Python string)."""
+    return "@invariant(\n    lambda self: %s,\n    %s\n)" % (X.render_expr(inv["e"]), X.pystr(inv["d"]))
+
+
 def model_text(model: Dict[str, Any]) -> str:
     items: List[Dict[str, Any]] = []
     for name in sorted(model["enums"]):
@@ -40,7 +46,7 @@ def model_text(model: Dict[str, Any]) -> str:
     for name in sorted(model["funcs"]):
         items.append({"kind": "raw", "text": X.render_function(name, model["funcs"][name], model["sigs"][name])})
     for cp in model["cprims"]:
-        items.append({"kind": "cprim", "name": cp["name"], "base": cp["base"], "invs": [{"expr": X.render_expr(i["e"]), "desc": i["d"]} for i in cp["invs"]]})
+        items.append({"kind": "cprim", "name": cp["name"], "base": cp["base"], "invs": [], "decorators": [render_inv(i) for i in cp["invs"]]})
     for c in model["classes"]:
         items.append(
             {
@@ -49,7 +55,8 @@ def model_text(model: Dict[str, Any]) -> str:
                 "bases": [c["base"]] if c["base"] else [],
                 "abstract": bool(c["abstract"]),
                 "props": [{"name": p["name"], "type": X.render_type(p["ty"])} for p in c["props"]],
-                "invs": [{"expr": X.render_expr(i["e"]), "desc": i["d"]} for i in c["invs"]],
+                "invs": [],
+                "decorators": [render_inv(i) for i in c["invs"]],
             }
         )
     return mm.render({"items": items})
